@@ -82,6 +82,13 @@ class Reject(Exception):
         self.kinds = kinds  # tuple of acceptable exception class names
 
 
+def as_iterable(items, how):
+    """The documented argument of array() / stack() / concatenate() is an iterable: hand the same items over as a
+    list, a tuple, a generator or an iterator."""
+    items = list(items)
+    return {"list": items, "tuple": tuple(items), "generator": (x for x in items), "iter": iter(items)}[how or "list"]
+
+
 def np_index(spec):
     """The index object handed to biotite. 'as' selects another spelling numpy accepts for the same index:
     a numpy integer scalar, a Python list of ints / bools, an int32 array, a read-only array."""
@@ -682,7 +689,8 @@ def generate(rng):
             m = rng.choice([0, 1, 2, 3, 4]) if kind == "stack" else None
             extras = rng.sample(extras_pool, rng.randint(0, 4))
             data = gen_container(rng, kind, n, m, extras, rng.random() < 0.6, rng.random() < 0.5)
-            op = {"op": "new", "dst": rng.randrange(nreg), "data": m_to_json(data), "via": rng.choice(["direct", "atoms"])}
+            op = {"op": "new", "dst": rng.randrange(nreg), "data": m_to_json(data), "via": rng.choice(["direct", "atoms"]),
+                  "as": rng.choice(["list", "list", "tuple", "generator", "iter"])}
         else:
             a = rng.choice(lv)
             m = ms[a]
@@ -703,7 +711,8 @@ def generate(rng):
                 with_box = m.box is not None and rng.random() < 0.8
                 op = {"op": "stack_variants", "src": a, "dst": dst, "coords": [gen_coord(rng, (m.n, 3)).tolist() for _ in range(k)],
                       "boxes": [gen_box(rng) if (with_box or rng.random() < 0.2) else None for _ in range(k)],
-                      "break_annot": (rng.randrange(k) if (faulty and k > 1 and rng.random() < 0.3) else None)}
+                      "break_annot": (rng.randrange(k) if (faulty and k > 1 and rng.random() < 0.3) else None),
+                      "as": rng.choice(["list", "list", "tuple", "generator", "iter"])}
             elif r < 0.55:
                 k = rng.randint(1, 3)
                 shape = (k, m.n, 3) if m.kind == "array" else (k, m.m, m.n, 3)
@@ -713,7 +722,7 @@ def generate(rng):
                 op = {"op": "from_template", "src": a, "dst": dst, "m": mm, "coord": gen_coord(rng, (mm, m.n, 3)).tolist(),
                       "box": gen_box(rng, mm) if rng.random() < 0.5 else None}
             elif r < 0.61:
-                op = {"op": "rebuild", "src": a, "dst": dst}
+                op = {"op": "rebuild", "src": a, "dst": dst, "as": rng.choice(["list", "list", "tuple", "generator", "iter"])}
             elif r < 0.68:
                 op = {"op": "copy", "src": a, "dst": dst}
             elif r < 0.74:
@@ -1021,7 +1030,7 @@ class Sim:
             def f():
                 if op["via"] == "atoms" and m.kind == "array" and m.n > 0:
                     atoms = [struc.Atom(m.coord[i], **{c: v[i] for c, v in m.ann.items()}) for i in range(m.n)]
-                    obj = struc.array(atoms)
+                    obj = struc.array(as_iterable(atoms, op.get("as")))
                     if m.box is not None:
                         obj.box = m.box.copy()
                     if m.bonds is not None:
@@ -1061,7 +1070,7 @@ class Sim:
                     if op.get("break_annot") == k and a.array_length() > 0:
                         a.res_id[0] += 1000
                     arrays.append(a)
-                return {op["dst"]: struc.stack(arrays)}, None
+                return {op["dst"]: struc.stack(as_iterable(arrays, op.get("as")))}, None
             return f
         if name == "repeat":
             return lambda: ({op["dst"]: struc.repeat(R[op["src"]], np.array(op["coord"], dtype=np.float32).reshape(
@@ -1071,7 +1080,7 @@ class Sim:
                 R[op["src"]], np.array(op["coord"], dtype=np.float32).reshape(op["m"], R[op["src"]].array_length(), 3),
                 None if op["box"] is None else np.array(op["box"], dtype=np.float32).reshape(op["m"], 3, 3))}, None)
         if name == "rebuild":
-            return lambda: ({op["dst"]: struc.array(list(R[op["src"]]))}, None)
+            return lambda: ({op["dst"]: struc.array(as_iterable(R[op["src"]], op.get("as")))}, None)
         if name == "copy":
             return lambda: ({op["dst"]: R[op["src"]].copy()}, None)
         if name == "del":
